@@ -23,7 +23,7 @@ from vf.lang import (
 )
 from vf.props.c01 import ast_signature
 
-KINDS = ["marginal", "marginal", "lognorm", "plate", "mixture", "mixture_all", "twostep", "integrate_var", "integrate_gauss", "moment", "deficient", "boundary", "integrate_signed", "gauss_all", "mixture_pair", "reuse"]
+KINDS = ["marginal", "marginal", "lognorm", "plate", "mixture", "mixture_all", "twostep", "integrate_var", "integrate_gauss", "moment", "deficient", "boundary", "integrate_signed", "gauss_all", "gauss_all", "gauss_all", "mixture_pair", "reuse"]
 
 
 def rspec(name):
@@ -235,7 +235,7 @@ class C13(Prop):
         "dense coefficients are recovered from the point-wise oracle by exact finite differences of a quadratic (verified at an extra point)",
         "numpy.linalg (solve, slogdet, inv, eigvalsh) on <=5x5 well-conditioned matrices",
     )
-    cases = {"quick": 4000, "thorough": 80000}
+    cases = {"quick": 6000, "thorough": 80000}
 
     def strategy(self, tier):
         return cases()
